@@ -677,6 +677,11 @@ def link_errors(sheet):
                         bad.append('%s: property %s names %r as parent' % (here, p_.name, p_.parent))
             sub = getattr(r, 'cssRules', None)
             if sub is not None and r.type in (r.MEDIA_RULE, r.PAGE_RULE):
+                for c_ in sub:
+                    bad_kinds = ((c_.CHARSET_RULE, c_.IMPORT_RULE, c_.NAMESPACE_RULE, c_.MARGIN_RULE) if r.type == r.MEDIA_RULE
+                                 else (c_.CHARSET_RULE, c_.IMPORT_RULE, c_.NAMESPACE_RULE, c_.PAGE_RULE, c_.MEDIA_RULE))
+                    if c_.type in bad_kinds:
+                        bad.append('%s: nested-kind: a rule of type %s inside a rule of type %s' % (here, c_.type, r.type))
                 walk(sub, r, here)
     walk(sheet.cssRules, None, '')
     return bad
@@ -699,7 +704,8 @@ def inuse_family(ctx, n):
         ops = []
         for k in range(rng.randrange(1, 6)):
             op = rng.choice(['delrule-ns', 'delrule-obj', 'del-map', 'insert-dup-prefix', 'add-undeclared', 'setprop-object',
-                             'sel-undeclared', 'delrule-any', 'insert-misplaced'])
+                             'sel-undeclared', 'delrule-any', 'insert-misplaced', 'container-csstext-rejected', 'container-csstext-rejected',
+                             'insert-rulelist', 'insert-rulelist'])
             ops.append(op)
             try:
                 if op == 'delrule-ns':
@@ -724,6 +730,20 @@ def inuse_family(ctx, n):
                             # moved, not shared: taken out of its block first
                             st[-1].style.removeProperty(src[0].name)
                             st[0].style.setProperty(src[0], replace=rng.random() < 0.5)
+                elif op == 'container-csstext-rejected':
+                    cont = rng.choice([r for r in sheet.cssRules if r.type in (r.MEDIA_RULE, r.PAGE_RULE)] + [sheet])
+                    cont.cssText = rng.choice(['a {}', '@media print', '@media print {a{left:0}} junk', '@page', '@media tv{a{left:0}} @media tv{}',
+                                               '@media tv {@import "x";}', '@page {margin:0}} x', 'p|zz{} }}', '@media bogus!{a{}}'])
+                elif op == 'insert-rulelist':
+                    other = cssutils.parseString(rng.choice([
+                        'm{left:0} @font-face{font-family:x} n{top:0}', 'm{left:0} @page{margin:0}', '@charset "utf-8"; m{left:0}',
+                        '@import "y.css"; m{left:0}', '@namespace r "w"; m{left:0}', 'm{left:0} @media tv{n{top:0}}', '/*c*/ m{left:0}']))
+                    cont = rng.choice([r for r in sheet.cssRules if r.type in (r.MEDIA_RULE, r.PAGE_RULE)])
+                    how = rng.random()
+                    if how < 0.5:
+                        cont.insertRule(other.cssRules, rng.randrange(cont.cssRules.length + 1))
+                    else:
+                        cont.cssRules.extend(other.cssRules)
                 elif op == 'delrule-any':
                     sheet.deleteRule(rng.randrange(-2, sheet.cssRules.length + 1))
                 else:
@@ -735,7 +755,8 @@ def inuse_family(ctx, n):
                 break
             bad = link_errors(sheet)
             if bad:
-                kind = 'parentStyleSheet-listed' if 'parentStyleSheet' in bad[0] else ('property-parent' if 'property' in bad[0] else 'parentRule')
+                kind = 'nested-kind' if 'nested-kind' in bad[0] else ('parentStyleSheet-listed' if 'parentStyleSheet' in bad[0] else (
+                    'property-parent' if 'property' in bad[0] else 'parentRule'))
                 ctx.violation(kind, {'text': text, 'ops': list(ops), 'family': 'in-use'}, '; '.join(bad[:4]), KNOWN_PRED)
                 break
         ctx.case(('inuse', text, tuple(ops)))
